@@ -61,7 +61,7 @@ def job_min(job, which, n, k, order='fixed', cube=None, logging=False):
         def nat_view(mv):
             r = getattr(nd, which)(nat.mk_dfa(view.to_json(mv), c.native('dfa')))
             return (len(r.Q), len(r.F), sorted(r.Sigma))
-        job.differential(30, lambda mv: (lambda r: (len(r.Q), len(r.F), sorted(r.Sigma)))(c.conc(R, mv)), nat_view, which)
+        job.differential(30, lambda mv: (lambda r: (len(r.Q), len(r.F), sorted(r.Sigma)))(c.conc(R, mv)), nat_view, which, replay=('minimise', {'D': view.to_json, 'which': which}))
     rp = ('minimise', {'D': view.to_json, 'which': which})
     rv = DfaView(R, None, syms)
     from .oracles import set_eq_bad, field
